@@ -273,8 +273,12 @@ LEVEL_TEXT = ("Proved in Coq for every event list that does not end in an error:
               "machine starts with on_parse_start, start/end callbacks nest, each end matches the most recent open start in id and "
               "kind, each start's parent and each item's state is the innermost open block, and the blocks open in the stream are "
               "exactly the blocks open in the source, i.e. every closed block was ended (stream_wellformed). Tie: end-to-end "
-              "correspondence of model stream vs recorded real stream. The fold clause (payload stored once, in order, in its state's "
-              "scope; equals parse_string) and the raise clause (no delivery after a raising callback, CxxParseError chained) are "
+              "correspondence of model stream vs recorded real stream. The fold clause is proved on the collecting visitor as translated "
+              "from simple.py on every run (Gen/VisitorTable.v): every payload-carrying callback of the protocol is exactly one append of "
+              "its payload to one list of the scope of its state, every protocol callback is covered, no two callbacks share a list "
+              "(every_payload_is_appended_once_to_the_scope_of_its_state, collecting_visitor_covers_the_protocol, "
+              "no_two_callbacks_share_a_list); the scope structure of the fold is proved under C12. That the result equals "
+              "parse_string, and the raise clause (no delivery after a raising callback, CxxParseError chained) are "
               "checked on the implementation for generated programs, the test corpus and every/sampled raise positions.")
 LEVEL_NOTE = ("Trusted: Coq kernel, atom vocabulary, extraction, driver, harness. Signature-kind constraints, fold and raise clauses: "
               "search on the implementation only (the fold model lives under C12).")
